@@ -43,6 +43,162 @@ def c24_recursive_value_encoding_depends_on_stack_depth(events, violation):
   return last is not None and ("deep" in detail or "RecursionError" in detail)
 
 
+SUMMARY_ACTIONS = ("UpdateSummaryViewSection", "DetachSummaryViewSection")
+
+
+def _bundles(events):
+  return [ev for ev in events if isinstance(ev.get("a"), list)]
+
+
+def c01_bundle_mixes_summary_regrouping_with_other_actions(events, violation):
+  """F-s: some bundle of the history combines summary (re)grouping with other user actions."""
+  if violation.get("oracle") not in ("undo-raised", "undo-state", "unwind-to-start", "redo-raised", "redo-state"):
+    return False
+  for ev in _bundles(events):
+    acts = ev["a"]
+    if len(acts) > 1 and any(a[0] in SUMMARY_ACTIONS or (a[0] == "CreateViewSection" and a[4] is not None)
+                             for a in acts):
+      return True
+  return False
+
+
+def _formula_writes(events):
+  for ev in _bundles(events):
+    for a in ev["a"]:
+      if a[0] in ("AddColumn", "ModifyColumn") and isinstance(a[3], dict):
+        yield ev, a
+
+
+def c05_trigger_formula_sorted_lookup_dangling_map(events, violation):
+  """F-t: a column whose formula does a lookup is switched to a data column (isFormula False keeps
+  the text as a trigger formula) somewhere in the history."""
+  lookup_cols = set()
+  for _ev, a in _formula_writes(events):
+    f = a[3].get("formula")
+    if f and ("lookup" in f or ".all" in f):
+      lookup_cols.add((a[1], a[2]))
+    if a[0] == "ModifyColumn" and a[3].get("isFormula") is False and (a[1], a[2]) in lookup_cols:
+      return True
+  return False
+
+
+def c05_error_cells_frozen_into_data_column(events, violation):
+  """F-r: the mismatch is an error class turning into NoneType, after a formula column was
+  converted to data."""
+  return "NoneType" in violation.get("detail", "") and any(
+    a[0] == "ModifyColumn" and a[3].get("isFormula") is False for _ev, a in _formula_writes(events))
+
+
+def c05_lookup_sort_or_key_column_errors(events, violation):
+  """F-c: a column that some lookup formula uses as key or sort column is later given a formula
+  (its cells may then be errors) or removed."""
+  from . import fx
+  used = set()
+  for ev in _bundles(events):
+    for a in ev["a"]:
+      if a[0] in ("AddColumn", "ModifyColumn") and isinstance(a[3], dict) and a[3].get("formula"):
+        if (a[1], a[2]) in used and a[0] == "ModifyColumn":
+          return True
+        tree = fx.parse(a[3]["formula"])
+        if tree is not None:
+          for lk in fx.find_lookups(tree):
+            for k in lk.keys:
+              used.add((lk.table, k))
+            for nm, _d in fx._sort_names(lk.order_by) + fx._sort_names(lk.sort_by):
+              used.add((lk.table, nm))
+      elif a[0] == "RemoveColumn" and (a[1], a[2]) in used:
+        return True
+  return False
+
+
+def c05_name_error_not_recalculated_when_table_appears(events, violation):
+  """F-b: a formula mentions a table id before a table with that id is added."""
+  from . import fx
+  mentioned = set()
+  for ev in _bundles(events):
+    for a in ev["a"]:
+      if a[0] in ("AddColumn", "ModifyColumn") and isinstance(a[3], dict) and a[3].get("formula"):
+        mentioned |= fx.referenced_tables(a[3]["formula"])
+      elif a[0] in ("AddTable", "AddEmptyTable", "RenameTable") and "NameError" in violation.get("detail", ""):
+        name = a[2] if a[0] == "RenameTable" else a[1]
+        if name in mentioned:
+          return True
+  return False
+
+
+def c11_one_action_writes_both_sides_of_a_pair(events, violation):
+  """F-q: the last bundle has one record action writing two reference columns of one table."""
+  if violation.get("oracle") != "asymmetric":
+    return False
+  m = re.search(r"pair (\w+)\.(\w+) <-> (\w+)\.(\w+)", violation.get("detail", ""))
+  if not m or m.group(1) != m.group(3):
+    return False
+  c1, c2 = m.group(2), m.group(4)
+  for ev in _bundles(events)[-1:]:
+    for a in ev["a"]:
+      if a[0] in ("UpdateRecord", "BulkUpdateRecord", "AddRecord", "BulkAddRecord") and a[1] == m.group(1) \
+          and c1 in a[3] and c2 in a[3]:
+        return True
+  return False
+
+
+def c11_link_of_contradicting_columns(events, violation):
+  """F-w: the last bundle sets reverseCol on an existing column."""
+  if violation.get("oracle") != "asymmetric":
+    return False
+  for ev in _bundles(events)[-1:]:
+    for a in ev["a"]:
+      if a[0] in ("ModifyColumn", "UpdateRecord") and isinstance(a[-1], dict) and a[-1].get("reverseCol"):
+        return True
+  return False
+
+
+_FUNCTION_NAMES = None
+
+def c16_table_named_like_a_formula_function(events, violation):
+  """F-y: some table was renamed to (what sanitises to) the name of a formula function."""
+  global _FUNCTION_NAMES
+  if _FUNCTION_NAMES is None:
+    try:
+      import functions
+      _FUNCTION_NAMES = set(n for n in dir(functions) if n[:1].isupper())
+    except Exception:    # pylint: disable=broad-except
+      _FUNCTION_NAMES = {"SUM"}
+  for ev in _bundles(events):
+    for a in ev["a"]:
+      name = None
+      if a[0] == "RenameTable":
+        name = a[2]
+      elif a[0] == "UpdateRecord" and a[1] == "_grist_Tables":
+        name = a[3].get("tableId")
+      elif a[0] == "UpdateRecord" and a[1] == "_grist_Views_section":
+        name = a[3].get("title")
+      elif a[0] in ("AddTable", "AddEmptyTable"):
+        name = a[1]
+      if isinstance(name, str) and name and (name in _FUNCTION_NAMES or
+                                             (name[0].upper() + name[1:]) in _FUNCTION_NAMES):
+        return True
+  return False
+
+
+def c29_evaluate_formula_on_summary_group(events, violation):
+  """F-n: evaluate_formula / get_formula_error on the `group` column of a summary table evaluates
+  getSummarySourceGroup with a wrapped record; the wrapper ends up in DocModel._auto_remove_set,
+  and the next bundle fails in apply_auto_removes after having applied the user's change."""
+  for ev in events:
+    if ev.get("k") == "tread" and ev.get("call") in ("evaluate_formula", "get_formula_error") \
+        and len(ev.get("args", [])) >= 2 and ev["args"][1] == "group" and "_summary" in str(ev["args"][0]):
+      return True
+  return False
+
+
+def c04_fault_in_post_action_phase(events, violation):
+  """F-l: Engine.apply_user_actions rolls back only what happens inside its `try` (the user
+  actions). A failure while applying the doc actions of the post-action phase (auto-removal of
+  empty summary rows / unused helper columns, formula side effects) is not rolled back."""
+  return "[post-action phase]" in violation.get("detail", "")
+
+
 def c04_fault_mid_record_doc_action(events, violation):
   """F-u: BulkUpdateRecord / BulkRemoveRecord / ReplaceTableData append their undo action only
   after mutating the columns, so an exception between two Column.set calls leaves cells changed
